@@ -1,7 +1,7 @@
 (* Clone/PairsPre.v — entry points that expose the pre-filters of the pair pipeline by themselves
    (properties C08, C09), in BOTH argument orders.
 
-   shouldCompareFragments (clone_detector.go:895) is called as (earlier, later) by the exhaustive double loop and by
+   shouldCompareFragments (clone_detector.go:911) is called as (earlier, later) by the exhaustive double loop and by
    the LSH candidate loop, and as (later, earlier) by the batch loop for fragments of earlier batches
    (tryCreateClonePair(i, j) with j < batchStart <= i).  "batched = unbatched" and "LSH never invents" therefore need
    the filter to give the same answer for (a, b) and (b, a).  The model [should_compare] is symmetric
